@@ -22,6 +22,11 @@ type sortInfo struct {
 	Strict   bool // < or > (not <=, >=)
 }
 
+// keyIsElement: the comparator orders by the element itself (not by a field or a derived key).
+func (si sortInfo) keyIsElement() bool {
+	return si.KeyI == "·" || si.KeyI == core.ExprStr(si.Slice)+"[·]"
+}
+
 // sortCalls finds sort.Slice-like calls in n (not inside nested literals).
 func sortCalls(info *types.Info, n ast.Node) []sortInfo {
 	var out []sortInfo
